@@ -8,6 +8,16 @@ REPO=${VERIF_REPO:-/repo}
 [ -f $LIB ] || exit 0
 CXX=clang++-14; command -v $CXX >/dev/null 2>&1 || CXX=clang++
 FLAGS="-std=c++20 -O1 -g -fsanitize=address,undefined -fsanitize-recover=undefined -DOPENSMT_VERIF_HOOKS -I$REPO/src -Iharness"
+# ThreadSanitizer twin of the threads harness
+TLIB=.build/tsan/lib/libopensmt.a
+for h in "$@"; do
+  if [ "$h" = h_threads ] && [ -f $TLIB ]; then
+    if [ ! -x $OUT/h_threads_tsan ] || [ harness/h_threads.cc -nt $OUT/h_threads_tsan ] || [ $TLIB -nt $OUT/h_threads_tsan ]; then
+      $CXX -std=c++20 -O1 -g -fsanitize=thread -DOPENSMT_VERIF_HOOKS -I$REPO/src -Iharness -o $OUT/h_threads_tsan harness/h_threads.cc $TLIB -lrapidcheck -lgmpxx -lgmp -lpthread
+      echo built h_threads_tsan
+    fi
+  fi
+done
 for h in "$@"; do
   src=harness/$h.cc
   [ -f $src ] || continue
